@@ -79,7 +79,13 @@ impl SaturateRound<f32> for i32 {
     }
 
     fn saturate_round(x: f32) -> Self {
-        Self::saturate_from(x.floor() + 0.5)
+        if x < 0.0 {
+            // `x.floor() + 0.5` is then truncated towards zero by the cast, which moves every
+            // negative value up by one: -1.0 became 0 and a rectangle at x = -1 was filled at x = 0.
+            Self::saturate_from((x + 0.5).floor())
+        } else {
+            Self::saturate_from(x.floor() + 0.5)
+        }
     }
 }
 
